@@ -185,63 +185,72 @@ theorem pieceOK_until (v : Option (Nat × Nat × Nat × Nat × Nat × Nat)) :
     exact (PieceOK.single (name := lit "UNTIL") (u := .untilV (showDT t) po) (by decide)
       (fun d hd => isAtom_isValC d (showDT_atoms t d hd)) (by simp [handleU, lit])).congr (fun _ => rfl)
 
-/-- an integer-list part: printed only when non-empty, parsed back to the same list -/
+/-- an empty recorded list is printed as nothing, so it comes back as "absent": what the round trip does to a BY-list -/
+def normL {α : Type} (v : Option (List α)) : Option (List α) :=
+  match v with
+  | some [] => none
+  | v => v
+
+/-- an integer-list part: printed only when non-empty, parsed back to the same list; an EMPTY recorded list (`()` passed to
+    `rrule()`) is not printed and therefore comes back as absent -/
 theorem pieceOK_partOf (name : String) (mk : List Int → Update) (hname : ∀ c ∈ lit name, isAtom c = true)
     (hh : ∀ value l, intList value = .ok l → handleU po (lit name) value = .ok (mk l))
-    (v : Option (List Int)) (hv : v ≠ some []) :
-    PieceOK po (partOf name v) (fun a => match v with | some l => (mk l).apply a | none => a) := by
+    (v : Option (List Int)) :
+    PieceOK po (partOf name v) (fun a => match normL v with | some l => (mk l).apply a | none => a) := by
   cases v with
   | none => exact PieceOK.nil.congr (fun _ => rfl)
   | some l =>
-    have hne : l ≠ [] := fun h => hv (by rw [h])
-    have hemp : l.isEmpty = false := by cases l with | nil => exact absurd rfl hne | cons => rfl
-    simp only [partOf, hemp, Bool.false_eq_true, if_false, List.append_assoc, List.singleton_append]
-    exact PieceOK.single hname (showInts_valC l) (hh _ l (intList_showInts l hne))
+    cases l with
+    | nil => exact PieceOK.nil.congr (fun _ => rfl)
+    | cons i l =>
+      have hne : i :: l ≠ [] := by simp
+      simp only [partOf, List.isEmpty_cons, Bool.false_eq_true, if_false, List.append_assoc, List.singleton_append]
+      exact PieceOK.single hname (showInts_valC (i :: l)) (hh _ (i :: l) (intList_showInts (i :: l) hne))
 
-theorem pieceOK_bysetpos (v : Option (List Int)) (hv : v ≠ some []) :
-    PieceOK po (partOf "BYSETPOS" v) (fun a => { a with bysetpos := v.or a.bysetpos }) :=
-  (pieceOK_partOf "BYSETPOS" .bysetpos (by decide) (by intro value l h; simp [handleU, lit, h, bind, Except.bind]) v hv).congr
-    (by intro a; cases v <;> rfl)
+theorem pieceOK_bysetpos (v : Option (List Int)) :
+    PieceOK po (partOf "BYSETPOS" v) (fun a => { a with bysetpos := (normL v).or a.bysetpos }) :=
+  (pieceOK_partOf "BYSETPOS" .bysetpos (by decide) (by intro value l h; simp [handleU, lit, h, bind, Except.bind]) v).congr
+    (by intro a; rcases v with _ | _ | _ <;> rfl)
 
-theorem pieceOK_bymonth (v : Option (List Int)) (hv : v ≠ some []) :
-    PieceOK po (partOf "BYMONTH" v) (fun a => { a with bymonth := v.or a.bymonth }) :=
-  (pieceOK_partOf "BYMONTH" .bymonth (by decide) (by intro value l h; simp [handleU, lit, h, bind, Except.bind]) v hv).congr
-    (by intro a; cases v <;> rfl)
+theorem pieceOK_bymonth (v : Option (List Int)) :
+    PieceOK po (partOf "BYMONTH" v) (fun a => { a with bymonth := (normL v).or a.bymonth }) :=
+  (pieceOK_partOf "BYMONTH" .bymonth (by decide) (by intro value l h; simp [handleU, lit, h, bind, Except.bind]) v).congr
+    (by intro a; rcases v with _ | _ | _ <;> rfl)
 
-theorem pieceOK_bymonthday (v : Option (List Int)) (hv : v ≠ some []) :
-    PieceOK po (partOf "BYMONTHDAY" v) (fun a => { a with bymonthday := v.or a.bymonthday }) :=
-  (pieceOK_partOf "BYMONTHDAY" .bymonthday (by decide) (by intro value l h; simp [handleU, lit, h, bind, Except.bind]) v hv).congr
-    (by intro a; cases v <;> rfl)
+theorem pieceOK_bymonthday (v : Option (List Int)) :
+    PieceOK po (partOf "BYMONTHDAY" v) (fun a => { a with bymonthday := (normL v).or a.bymonthday }) :=
+  (pieceOK_partOf "BYMONTHDAY" .bymonthday (by decide) (by intro value l h; simp [handleU, lit, h, bind, Except.bind]) v).congr
+    (by intro a; rcases v with _ | _ | _ <;> rfl)
 
-theorem pieceOK_byyearday (v : Option (List Int)) (hv : v ≠ some []) :
-    PieceOK po (partOf "BYYEARDAY" v) (fun a => { a with byyearday := v.or a.byyearday }) :=
-  (pieceOK_partOf "BYYEARDAY" .byyearday (by decide) (by intro value l h; simp [handleU, lit, h, bind, Except.bind]) v hv).congr
-    (by intro a; cases v <;> rfl)
+theorem pieceOK_byyearday (v : Option (List Int)) :
+    PieceOK po (partOf "BYYEARDAY" v) (fun a => { a with byyearday := (normL v).or a.byyearday }) :=
+  (pieceOK_partOf "BYYEARDAY" .byyearday (by decide) (by intro value l h; simp [handleU, lit, h, bind, Except.bind]) v).congr
+    (by intro a; rcases v with _ | _ | _ <;> rfl)
 
-theorem pieceOK_byweekno (v : Option (List Int)) (hv : v ≠ some []) :
-    PieceOK po (partOf "BYWEEKNO" v) (fun a => { a with byweekno := v.or a.byweekno }) :=
-  (pieceOK_partOf "BYWEEKNO" .byweekno (by decide) (by intro value l h; simp [handleU, lit, h, bind, Except.bind]) v hv).congr
-    (by intro a; cases v <;> rfl)
+theorem pieceOK_byweekno (v : Option (List Int)) :
+    PieceOK po (partOf "BYWEEKNO" v) (fun a => { a with byweekno := (normL v).or a.byweekno }) :=
+  (pieceOK_partOf "BYWEEKNO" .byweekno (by decide) (by intro value l h; simp [handleU, lit, h, bind, Except.bind]) v).congr
+    (by intro a; rcases v with _ | _ | _ <;> rfl)
 
-theorem pieceOK_byhour (v : Option (List Int)) (hv : v ≠ some []) :
-    PieceOK po (partOf "BYHOUR" v) (fun a => { a with byhour := v.or a.byhour }) :=
-  (pieceOK_partOf "BYHOUR" .byhour (by decide) (by intro value l h; simp [handleU, lit, h, bind, Except.bind]) v hv).congr
-    (by intro a; cases v <;> rfl)
+theorem pieceOK_byhour (v : Option (List Int)) :
+    PieceOK po (partOf "BYHOUR" v) (fun a => { a with byhour := (normL v).or a.byhour }) :=
+  (pieceOK_partOf "BYHOUR" .byhour (by decide) (by intro value l h; simp [handleU, lit, h, bind, Except.bind]) v).congr
+    (by intro a; rcases v with _ | _ | _ <;> rfl)
 
-theorem pieceOK_byminute (v : Option (List Int)) (hv : v ≠ some []) :
-    PieceOK po (partOf "BYMINUTE" v) (fun a => { a with byminute := v.or a.byminute }) :=
-  (pieceOK_partOf "BYMINUTE" .byminute (by decide) (by intro value l h; simp [handleU, lit, h, bind, Except.bind]) v hv).congr
-    (by intro a; cases v <;> rfl)
+theorem pieceOK_byminute (v : Option (List Int)) :
+    PieceOK po (partOf "BYMINUTE" v) (fun a => { a with byminute := (normL v).or a.byminute }) :=
+  (pieceOK_partOf "BYMINUTE" .byminute (by decide) (by intro value l h; simp [handleU, lit, h, bind, Except.bind]) v).congr
+    (by intro a; rcases v with _ | _ | _ <;> rfl)
 
-theorem pieceOK_bysecond (v : Option (List Int)) (hv : v ≠ some []) :
-    PieceOK po (partOf "BYSECOND" v) (fun a => { a with bysecond := v.or a.bysecond }) :=
-  (pieceOK_partOf "BYSECOND" .bysecond (by decide) (by intro value l h; simp [handleU, lit, h, bind, Except.bind]) v hv).congr
-    (by intro a; cases v <;> rfl)
+theorem pieceOK_bysecond (v : Option (List Int)) :
+    PieceOK po (partOf "BYSECOND" v) (fun a => { a with bysecond := (normL v).or a.bysecond }) :=
+  (pieceOK_partOf "BYSECOND" .bysecond (by decide) (by intro value l h; simp [handleU, lit, h, bind, Except.bind]) v).congr
+    (by intro a; rcases v with _ | _ | _ <;> rfl)
 
-theorem pieceOK_byeaster (v : Option (List Int)) (hv : v ≠ some []) :
-    PieceOK po (partOf "BYEASTER" v) (fun a => { a with byeaster := v.or a.byeaster }) :=
-  (pieceOK_partOf "BYEASTER" .byeaster (by decide) (by intro value l h; simp [handleU, lit, h, bind, Except.bind]) v hv).congr
-    (by intro a; cases v <;> rfl)
+theorem pieceOK_byeaster (v : Option (List Int)) :
+    PieceOK po (partOf "BYEASTER" v) (fun a => { a with byeaster := (normL v).or a.byeaster }) :=
+  (pieceOK_partOf "BYEASTER" .byeaster (by decide) (by intro value l h; simp [handleU, lit, h, bind, Except.bind]) v).congr
+    (by intro a; rcases v with _ | _ | _ <;> rfl)
 
 /-! BYDAY -/
 
@@ -291,60 +300,60 @@ theorem handleU_byday (l : List WDay) (hne : l ≠ []) (h : ∀ w ∈ l, NormalW
       exact isAtom_ne_comma _ (showWDayStr_atoms w (h w hw) _ hc) rfl)
   simp [handleU, lit, hs, mapM_parseWDay_show l h, bind, Except.bind]
 
-theorem pieceOK_byday (v : Option (List WDay)) (hv : ∀ l, v = some l → l ≠ [] ∧ ∀ w ∈ l, NormalWDay w) :
-    PieceOK po (byDayPart v) (fun a => { a with byweekday := v.or a.byweekday }) := by
-  cases v with
-  | none => exact PieceOK.nil.congr (fun _ => rfl)
-  | some l =>
-    obtain ⟨hne, hn⟩ := hv l rfl
+theorem pieceOK_byday (v : Option (List WDay)) (hv : ∀ l, v = some l → ∀ w ∈ l, NormalWDay w) :
+    PieceOK po (byDayPart v) (fun a => { a with byweekday := (normL v).or a.byweekday }) := by
+  rcases v with _ | _ | ⟨w0, l0⟩
+  · exact PieceOK.nil.congr (fun _ => rfl)
+  · exact PieceOK.nil.congr (fun _ => rfl)
+  · generalize hl : w0 :: l0 = l at hv ⊢
+    have hne : l ≠ [] := by rw [← hl]; simp
+    have hn := hv l rfl
     have hemp : l.isEmpty = false := by cases l with | nil => exact absurd rfl hne | cons => rfl
+    have hnorm : normL (some l) = some l := by rw [← hl]; rfl
     simp only [byDayPart, hemp, Bool.false_eq_true, if_false]
     exact (PieceOK.single (name := lit "BYDAY") (by decide)
       (intercalate_valC _ (by
         intro i hi c hc
         rcases List.mem_map.mp hi with ⟨w, hw, rfl⟩
         exact showWDayStr_atoms w (hn w hw) c hc))
-      (handleU_byday l hne hn)).congr (fun _ => rfl)
+      (handleU_byday l hne hn)).congr (fun _ => by rw [hnorm]; rfl)
 
 /-! ### the whole parts list -/
 
-/-- printable normal form: what `rrule.__init__` leaves in `_freq`, `_wkst` and `_original_rule` -/
+/-- printable form: `_freq` is one of the seven frequencies, `_wkst` a weekday number, and the recorded weekdays have
+    numbers 0..6 with `n` absent or non-zero (`rrule.weekday` rejects `n = 0`).  The BY-lists of `_original_rule` are
+    arbitrary — in particular they may be EMPTY: `rrule(…, bymonthday=())` records `()`, which `__str__` prints as nothing
+    (see `normL` and the known finding D-C13-empty-by-list: the reparsed rule then re-derives the defaults from the start) -/
 structure Printable (x : StrIn) : Prop where
   freq : x.freq < 7
   wkst0 : 0 ≤ x.wkst
   wkst6 : x.wkst ≤ 6
-  bysetpos : x.orig.bysetpos ≠ some []
-  bymonth : x.orig.bymonth ≠ some []
-  bymonthday : x.orig.bymonthday ≠ some []
-  byyearday : x.orig.byyearday ≠ some []
-  byeaster : x.orig.byeaster ≠ some []
-  byweekno : x.orig.byweekno ≠ some []
-  byhour : x.orig.byhour ≠ some []
-  byminute : x.orig.byminute ≠ some []
-  bysecond : x.orig.bysecond ≠ some []
-  byweekday : ∀ l, x.orig.byweekday = some l → l ≠ [] ∧ ∀ w ∈ l, NormalWDay w
+  byweekday : ∀ l, x.orig.byweekday = some l → ∀ w ∈ l, NormalWDay w
 
 /-- the keyword arguments `str(rule)` spells out: FREQ always, INTERVAL unless 1, WKST unless MO, COUNT, UNTIL (its
-    compact text), and exactly the recorded BY-parts -/
+    compact text, with the options it will be parsed with), and exactly the NON-EMPTY recorded BY-parts (`normL`: an empty
+    recorded list is not printed, hence absent here — this is where `argsOf x` differs from the arguments the rule was
+    built from) -/
 def argsOf (po : ParseOpts) (x : StrIn) : RArgs :=
   { freq := some (x.freq : Int),
     interval := if x.interval != 1 then some x.interval else none,
     wkst := if x.wkst != 0 then some x.wkst else none,
     count := x.count,
     untilV := x.untilV.map (fun t => (showDT t, po)),
-    bysetpos := x.orig.bysetpos, bymonth := x.orig.bymonth, bymonthday := x.orig.bymonthday,
-    byyearday := x.orig.byyearday, byeaster := x.orig.byeaster, byweekno := x.orig.byweekno,
-    byweekday := x.orig.byweekday, byhour := x.orig.byhour, byminute := x.orig.byminute, bysecond := x.orig.bysecond }
+    bysetpos := normL x.orig.bysetpos, bymonth := normL x.orig.bymonth, bymonthday := normL x.orig.bymonthday,
+    byyearday := normL x.orig.byyearday, byeaster := normL x.orig.byeaster, byweekno := normL x.orig.byweekno,
+    byweekday := normL x.orig.byweekday, byhour := normL x.orig.byhour, byminute := normL x.orig.byminute,
+    bysecond := normL x.orig.bysecond }
 
 theorem partsOf_ok (x : StrIn) (hx : Printable x) :
     (partsOf x).foldlM (stepPair po) {} = .ok (argsOf po x) ∧ (∀ p ∈ partsOf x, GoodPart p) := by
   have h := ((((((((((((((pieceOK_freq (po := po) x.freq hx.freq).append (pieceOK_interval x.interval)).append
     (pieceOK_wkst x.wkst hx.wkst0 hx.wkst6)).append (pieceOK_count x.count)).append (pieceOK_until x.untilV)).append
-    (pieceOK_bysetpos _ hx.bysetpos)).append (pieceOK_bymonth _ hx.bymonth)).append
-    (pieceOK_bymonthday _ hx.bymonthday)).append (pieceOK_byyearday _ hx.byyearday)).append
-    (pieceOK_byweekno _ hx.byweekno)).append (pieceOK_byday _ hx.byweekday)).append
-    (pieceOK_byhour _ hx.byhour)).append (pieceOK_byminute _ hx.byminute)).append
-    (pieceOK_bysecond _ hx.bysecond)).append (pieceOK_byeaster _ hx.byeaster)
+    (pieceOK_bysetpos x.orig.bysetpos)).append (pieceOK_bymonth x.orig.bymonth)).append
+    (pieceOK_bymonthday x.orig.bymonthday)).append (pieceOK_byyearday x.orig.byyearday)).append
+    (pieceOK_byweekno x.orig.byweekno)).append (pieceOK_byday _ hx.byweekday)).append
+    (pieceOK_byhour x.orig.byhour)).append (pieceOK_byminute x.orig.byminute)).append
+    (pieceOK_bysecond x.orig.bysecond)).append (pieceOK_byeaster x.orig.byeaster)
   refine ⟨?_, h.2⟩
   have h1 : (partsOf x).foldlM (stepPair po) {} = _ := h.1 {}
   rw [h1]
